@@ -29,7 +29,7 @@ where
 impl<V> Node<V> {
     /// Insert a new item into this node
     pub fn insert(mut self, regex: &str, id: String, item: V) -> Item<V> {
-        let mut max_prefix_size = self.regex.original.len() as u32;
+        let mut max_prefix_size = self.regex.original.chars().count() as u32;
         let prefix_size = common_prefix_char_size(regex, self.regex.original.as_str());
 
         if prefix_size < max_prefix_size {
@@ -48,7 +48,7 @@ impl<V> Node<V> {
         for i in 0..self.children.len() {
             let prefix_size = common_prefix_char_size(regex, self.children[i].regex());
 
-            if prefix_size > max_prefix_size {
+            if prefix_size > max_prefix_size || (max_prefix_item.is_none() && self.children[i].regex() == regex) {
                 max_prefix_size = prefix_size;
                 max_prefix_item = Some(i);
             }
